@@ -32,6 +32,7 @@ REGISTRY = {
     'C03': ['contracts.lemmas', 'contracts.c03'],
     'C08': ['contracts.c08'],
     'C17': ['contracts.c17'],
+    'C18': ['contracts.c18'],
 }
 
 BASELINE_FILE = os.path.join(HERE, 'baseline', 'obligations.json')
